@@ -218,6 +218,9 @@ class C06(Prop):
                     if rel['_reply']['kind'] != 'void' and 'K-5' in known and \
                             ('could not convert' in log or 'no match for' in log or 'no known conversion' in log):
                         known_hits.append((known['K-5'], rec))
+                    elif not c['_info']['comp_ns'] and 'undefined reference' in log and 'D-8' in known:
+                        # global-namespace encapsulee: the shell sits in an unnamed namespace (finding D-8)
+                        known_hits.append((known['D-8'], rec))
                     else:
                         failures.append(rec)
                 finally:
